@@ -21,7 +21,8 @@ RULE = ('Direct calls of the long-only sizer on a real broker: 1-6 assets from a
         'q*p + fee <= alloc < (q+1)*p + fee with alloc=(1-b)*E*w/sum(w) (1e-12 relative slack), sum(q*p) <= '
         '(1-b)*E, keys preserved, all-zero -> all-zero. Plus an exhaustive small grid. Non-trivial = >=2 '
         'positive weights, fee>0 or buffer>0, and some alloc/p with fractional part >= 0.5 (floor != round), '
-        'or a rejected invalid input.')
+        'or a rejected invalid input.'
+        " Round-4/5 reach: the broker's fee model replaced, cash withdrawn and the sizer's cash_buffer_percentage re-set between calls on one sizer; QuantTradingSystem-built sizers given both sizing keywords; exact clause (quantity == reference sizing in exact rationals unless a quotient is within 1e-12 of a whole number) incl. allocations that are exact multiples of the price; csv part: files in any row order with missing cells, a first bar without an Open, a source quoting a spread, a first-listed source whose history starts later.")
 ASSUMPTIONS = [
     'fee rates with commission + tax <= 1 (a fee above 100% has no meaningful budget)',
     'weight sums either <= 1e-9 (left unscaled by the code, only upper bounds asserted) or >= 5e-5',
@@ -61,7 +62,8 @@ def run_case(case):
         try:
             if case.get('via_qts'):
                 q.QuantTradingSystem(q.StaticUniverse(sorted(weights)), b, 'p', dh, None, long_only=True,
-                                     cash_buffer_percentage=buf, submit_orders=False)
+                                     cash_buffer_percentage=buf, submit_orders=False,
+                                   **({'gross_leverage': 2.0} if case.get('both_kwargs') else {}))
             else:
                 q.DollarWeightedCashBufferedOrderSizer(b, 'p', dh, cash_buffer_percentage=buf)
         except ValueError:
@@ -73,7 +75,8 @@ def run_case(case):
     elif case.get('via_qts'):
         # the way a session builds it: QuantTradingSystem(..., long_only=True, cash_buffer_percentage=b)
         qts = q.QuantTradingSystem(q.StaticUniverse(sorted(weights)), b, 'p', dh, None, long_only=True,
-                                   cash_buffer_percentage=buf, submit_orders=False)
+                                   cash_buffer_percentage=buf, submit_orders=False,
+                                   **({'gross_leverage': 2.0} if case.get('both_kwargs') else {}))
         sizer = qts.portfolio_construction_model.order_sizer
         if not isinstance(sizer, q.DollarWeightedCashBufferedOrderSizer):
             raise Violation('long-only trading system built a %s' % type(sizer).__name__)
@@ -104,6 +107,11 @@ def run_case(case):
             b.fee_model = kit.fee_model(case['swap_fee'] or None)
             fee_now = case['swap_fee'] or None
             all_cls.append('fee_model_replaced')
+        if call_no and case.get('new_buffer') is not None:
+            # the sizer's public cash_buffer_percentage attribute is re-set on the live object: later calls follow it
+            sizer.cash_buffer_percentage = case['new_buffer']
+            buf = case['new_buffer']
+            all_cls.append('buffer_changed_on_live_sizer')
         E = F(b.get_portfolio_total_equity('p'))
         out = sizer(kit.T_OPEN, dict(weights))
         if set(out.keys()) != set(weights.keys()):
@@ -258,6 +266,7 @@ def cases(draw):
             sub = assets if draw(st.booleans()) else draw(st.lists(st.sampled_from(assets), min_size=1, unique=True))
             case['more_weights'].append({a: _weight(draw) for a in sub})
     case['via_qts'] = draw(st.sampled_from([False, False, True]))
+    case['both_kwargs'] = draw(st.booleans())      # a shared configuration carrying both sizing keywords
     inv = draw(st.sampled_from([None] * 12 + ['neg_weight', 'buffer_low', 'buffer_high', 'nan_price']))
     if inv == 'neg_weight':
         a = draw(st.sampled_from(assets))
@@ -280,6 +289,7 @@ def cases(draw):
         case.pop('hold_price', None)
     case['move_cash'] = draw(st.booleans())
     case['swap_fee'] = draw(st.sampled_from([None, None, [0.01, 0.005], [0.0, 0.0]]))
+    case['new_buffer'] = draw(st.sampled_from([None, None, None, 0.25, 0.0, 0.9]))
     if inv:
         case['invalid'] = inv
         case.pop('more_weights', None)
@@ -309,9 +319,39 @@ def run_csv(case, long_only=True):
     clear_caches()
     t = cal.ts6(case['t'])
     syms = case['symbols']
-    with market.csv_dir(syms) as path:
+    order = case.get('file_order', 'sorted')
+    files = syms
+    if order != 'sorted':
+        # the same rows laid out newest first / shuffled in the files
+        import random
+        files = {}
+        for i, (s, rows) in enumerate(syms.items()):
+            rr = list(rows)
+            if order == 'reversed':
+                rr.reverse()
+            else:
+                random.Random(1009 * i + len(rr)).shuffle(rr)
+            files[s] = rr
+    spread = case.get('spread') or 0.0
+    with market.csv_dir(files) as path:
         ds = q.CSVDailyBarDataSource(path, q.Equity, adjust_prices=case['adjust'], csv_symbols=list(syms))
-        dh = q.BacktestDataHandler(None, data_sources=[ds])
+        if spread:
+            # a source quoting ask above bid: the sizers buy at the ask
+            ds = kit.SpreadSource(ds, spread)
+        sources = [ds]
+        if case.get('late_source_first'):
+            # another vendor's files for the same symbols, listed first, whose history starts months later (other
+            # prices): it has nothing to say at t, so the handler must fall through to the second source
+            later = {}
+            for s, rows in syms.items():
+                later[s] = []
+                for r in rows:
+                    d_ = D.date(r[0], r[1], r[2]) + D.timedelta(days=91)
+                    later[s].append([d_.year, d_.month, d_.day] + [None if x is None else round(x * 1.5, 4) for x in r[3:]])
+            market.write_market(later, path + '_later')
+            sources = [q.CSVDailyBarDataSource(path + '_later', q.Equity, adjust_prices=case['adjust'],
+                                               csv_symbols=list(syms)), ds]
+        dh = q.BacktestDataHandler(None, data_sources=sources)
         b = q.SimulatedBroker(t, q.SimulatedExchange(t), dh, initial_funds=case['equity'],
                               fee_model=kit.fee_model(case['fee']))
         b.create_portfolio('p')
@@ -321,7 +361,7 @@ def run_csv(case, long_only=True):
         else:
             sizer = q.LongShortLeveragedOrderSizer(b, 'p', dh, gross_leverage=case['arg'])
         weights = {'EQ:' + s: w for s, w in case['weights'].items()}
-        price = {'EQ:' + s: lookup(observations(rows, case['adjust']), t)[0] for s, rows in syms.items()}
+        price = {'EQ:' + s: lookup(observations(rows, case['adjust']), t)[0] * (1.0 + spread) for s, rows in syms.items()}
         unpriced = [a for a in weights if math.isnan(price[a])]
         try:
             out = sizer(t, dict(weights))
@@ -332,6 +372,9 @@ def run_csv(case, long_only=True):
             raise Violation('sizing at %s raised although every asset is priced (%s)' % (t, price))
         finally:
             clear_caches()
+            if case.get('late_source_first'):
+                import shutil
+                shutil.rmtree(path + '_later', ignore_errors=True)
     if unpriced:
         raise Violation('asset(s) %s have no bar at or before %s (first bars %s) yet the sizer returned %s' % (
             unpriced, t, {s: market.first_date(r) for s, r in syms.items()}, out))
@@ -343,7 +386,21 @@ def run_csv(case, long_only=True):
     bound = (1 - F(case['arg'])) * E if long_only else F(case['arg']) * E * (1 + f)
     if total > bound * (1 + F(1, 10 ** 9)):
         raise Violation('target costs %r at the point-in-time prices %s, more than %r' % (float(total), price, float(bound)))
-    return Result(['priced'], nontrivial=False)
+    cls = ['priced']
+    if spread:
+        cls.append('source_quotes_a_spread')
+        # with a spread the budget inequality is tight enough to tell the ask from the bid
+        for a in out:
+            if weights[a] > 0 and long_only:
+                share = (1 - F(case['arg'])) * E * F(weights[a]) / sum(F(w) for w in weights.values())
+                if out[a]['quantity'] * F(price[a]) > share * (1 + F(1, 10 ** 9)):
+                    raise Violation('%s: %d at the ask %r costs more than its share %r of the buffered equity' % (
+                        a, out[a]['quantity'], price[a], float(share)))
+    if order != 'sorted':
+        cls.append('files_' + order)
+    if case.get('late_source_first'):
+        cls.append('first_listed_source_starts_later')
+    return Result(cls, nontrivial=bool(spread) or order != 'sorted')
 
 
 @st.composite
@@ -354,10 +411,12 @@ def csv_cases(draw, long_only=True):
     names = draw(market.symbol_names(2, 3))
     seed = draw(st.integers(0, 2 ** 31))
     late = draw(st.integers(1, len(names) - 1))
+    miss = draw(st.sampled_from([False, True]))
     syms = {}
     for i, s in enumerate(names):
         off = 0 if i < late else draw(st.integers(3, 12))
-        syms[s] = market.build_rows(seed + i, d0 + D.timedelta(days=off), 25) or market.build_rows(seed, d0, 25)
+        syms[s] = (market.build_rows(seed + i, d0 + D.timedelta(days=off), 25, missing=miss)
+                   or market.build_rows(seed, d0, 25))
     blank = draw(st.sampled_from([False, False, True]))
     if blank:
         # the latest-starting symbol's first bar has an empty Open cell: nothing to trade at until that day's close
@@ -376,7 +435,10 @@ def csv_cases(draw, long_only=True):
         d = first_late + D.timedelta(days=draw(st.integers(1, 5)))
         t = [d.year, d.month, d.day, 21, 0, 0]
     w = {s: (draw(st.sampled_from([0.0, 0.5, 1.0, 0.25])) * (1 if long_only or draw(st.booleans()) else -1)) for s in names}
-    return {'blank_first_open': blank, 'where': where, 'symbols': syms, 't': t, 'weights': w, 'equity': draw(st.sampled_from([1e6, 1e4, 250000.0])),
+    return {'file_order': draw(st.sampled_from(['sorted', 'reversed', 'shuffled'])),
+            'spread': draw(st.sampled_from([0.0, 0.0, 0.02, 0.3])),
+            'late_source_first': draw(st.sampled_from([False, False, True])),
+            'blank_first_open': blank, 'where': where, 'symbols': syms, 't': t, 'weights': w, 'equity': draw(st.sampled_from([1e6, 1e4, 250000.0])),
             'fee': draw(st.sampled_from([None, [0.001, 0.005]])), 'adjust': draw(st.booleans()),
             'arg': draw(st.sampled_from([0.05, 0.0, 0.3])) if long_only else draw(st.sampled_from([1.0, 2.0, 0.5]))}
 
